@@ -128,7 +128,10 @@ impl Prop for C20 {
     for mask in 0..512u32 { emit(&mut out, 3, mask, "plain", 0); }
     let variants = ["decorated", "fences", "repeat", "fence-last", "no-trailing-newline", "crlf", "missing", "symlink"];
     let per = if tier == Tier::Quick { 40 } else { 512 };
-    for v in variants.iter() { for k in 0..(if *v == "fences" { per * 3 } else { per }) { let mut rng = Rng::keyed(seed, &format!("c20v{}{}", v, k)); let mask = if tier == Tier::Quick { rng.below(512) as u32 } else { k as u32 }; emit(&mut out, 3, mask, v, k); } }
+    // random graphs on 3 files are mostly cyclic; the variants about repeated includes and fences are only informative on
+    // acyclic graphs, so two thirds of their graphs keep forward edges only (i -> j with i < j)
+    let forward: u32 = (0..3).flat_map(|i| (0..3).filter(move |j| i < *j).map(move |j| 1u32 << (i * 3 + j))).sum();
+    for v in variants.iter() { for k in 0..(if *v == "fences" { per * 3 } else { per }) { let mut rng = Rng::keyed(seed, &format!("c20v{}{}", v, k)); let mut mask = if tier == Tier::Quick { rng.below(512) as u32 } else { (k % 512) as u32 }; if matches!(*v, "repeat" | "fence-last" | "fences" | "decorated") && k % 3 != 0 { mask &= forward; if mask == 0 { mask = forward; } } emit(&mut out, 3, mask, v, k); } }
     // 4 files: seeded sample (quick) / all 65536 (thorough)
     let n4 = if tier == Tier::Quick { 300 } else { 65536 };
     for k in 0..n4 { let mut rng = Rng::keyed(seed, &format!("c20four{}", k)); let mask = if tier == Tier::Quick { rng.below(65536) as u32 } else { k as u32 }; let v = if k % 5 == 0 { "decorated" } else { "plain" }; emit(&mut out, 4, mask, v, k); }
